@@ -142,10 +142,10 @@ def seq_names(n):
     return out
 
 
-def analyse(root, env, strict, strict_eval_all=False):
+def analyse(root, env, strict, strict_eval_all=False, api=False):
     """Render with both real renderers, read and evaluate both texts.
     Returns dict(kind=..., differs=z3 Bool or True, ...)."""
-    x = S.to_ir(root)
+    x = S.to_expr(root)._ir if api else S.to_ir(root)
     plain = PlainRenderer()(x)
     try:
         cse = CSERenderer()(x)
@@ -238,7 +238,7 @@ def _formula(o):
     return pc if d is True else z3.And(pc, d)
 
 
-def _witness(o, m, family, n, shadow):
+def _witness(o, m, family, n, shadow, api=False):
     vals = {}
     for nm in LEAF_VARS:
         var = z3.Bool(nm) if (nm == 'p' or '_has' in nm) else (
@@ -246,12 +246,12 @@ def _witness(o, m, family, n, shadow):
         mv = m.eval(var, model_completion=True)
         vals[nm] = z3.is_true(mv) if z3.is_bool(mv) else _signed(mv)
     v = o.value
-    return {'family': family, 'n': n, 'shadow': shadow, 'choices': v['choices'], 'leaves': vals,
+    return {'family': family, 'n': n, 'shadow': shadow, 'api': api, 'choices': v['choices'], 'leaves': vals,
             'kind': v['kind'], 'why': v.get('why'), 'cls': v['cls'], 'shape': v['shape'],
             'plain': v['plain'], 'cse': v['cse']}
 
 
-def run_shard(family, n, shadow, pins, batch=300, timeout_ms=120000, max_cex=12):
+def run_shard(family, n, shadow, pins, batch=300, timeout_ms=120000, max_cex=12, api=False):
     """Explore every shape whose first choices are `pins`.  Returns a summary dict (picklable)."""
     t0 = time.time()
     strict = family == 'strict'
@@ -281,7 +281,7 @@ def run_shard(family, n, shadow, pins, batch=300, timeout_ms=120000, max_cex=12)
         except S.DeadEnd:
             stats['dead'] += 1
             raise glue.PathAbort('dead end')
-        r = analyse(root, env, strict)
+        r = analyse(root, env, strict, api=api)
         r['choices'] = list(seq)
         r['shape'] = repr(root)
         r['cls'] = known_class(root)
@@ -335,7 +335,7 @@ def run_shard(family, n, shadow, pins, batch=300, timeout_ms=120000, max_cex=12)
             if hit is None:
                 raise HarnessError('sat model satisfies no disjunct')
             if len(res['cex']) < max_cex:
-                res['cex'].append(_witness(hit, m, family, n, shadow))
+                res['cex'].append(_witness(hit, m, family, n, shadow, api))
             cls = hit.value['cls']
             # one witness per known class is enough; an unclassified one is reported individually
             if cls:
@@ -365,7 +365,7 @@ def run_shard(family, n, shadow, pins, batch=300, timeout_ms=120000, max_cex=12)
     solve('new')
     solve('known')
     total = time.time() - t0
-    return {'family': family, 'n': n, 'shadow': shadow, 'pins': list(pins), 'stats': stats,
+    return {'family': family, 'n': n, 'shadow': shadow, 'api': api, 'pins': list(pins), 'stats': stats,
             'queries': res['queries'], 'cex': res['cex'], 'unknown': res['unknown'], 'reach': res['reach'],
             'truncated': res.get('truncated', False), 'explore_s': round(total - res['solve_s'], 2),
             'solve_s': round(res['solve_s'], 2), 'solver_calls_explorer': ex.solver_calls,
@@ -394,7 +394,8 @@ def rebuild(choices, family, n, shadow):
 def replay_concrete(d):
     """Re-run one counterexample concretely on the real renderers.  Returns (violates: bool, message)."""
     root = rebuild(d['choices'], d['family'], d['n'], d.get('shadow', False))
-    r = analyse(root, leaves_from_values(d['leaves']), d['family'] == 'strict', strict_eval_all=True)
+    r = analyse(root, leaves_from_values(d['leaves']), d['family'] == 'strict', strict_eval_all=True,
+                api=d.get('api', False))
     if r['differs'] is True:
         return True, f"{r['kind']}: {r['why']}\n  cse:   {r['cse']}\n  plain: {r['plain']}"
     dv = z3.simplify(r['differs'])
